@@ -555,6 +555,11 @@ func (lb *LoadBalancer) AddBackend(backendCfg config.BackendConfig) error {
 	if weight < 1 {
 		weight = 1
 	}
+	// The weighted strategies add weights up: with weights near the largest integer the sums
+	// wrap around and the shares have nothing to do with the weights any more
+	if weight > config.MaxBackendWeight {
+		return fmt.Errorf("backend %s: weight %d is too large (at most %d)", backendCfg.Name, weight, config.MaxBackendWeight)
+	}
 	backend := &Backend{
 		Name:              backendCfg.Name,
 		URL:               backendURL,
